@@ -279,6 +279,9 @@ class J1939_22:
             if dest_address == ParameterGroupNumber.Address.GLOBAL:
 
                 # send BAM
+                if pgn.is_pdu1_format:
+                    # the PS byte of a PDU1 message is its destination, not part of the PGN
+                    pgn.pdu_specific = 0
                 self.__send_tp_bam(priority, src_address, session_num, pgn.value, message_size, num_segments)
 
                 # init new buffer for this connection
